@@ -254,8 +254,9 @@ struct Lower
             unsigned bi = 0; bool found = false;
             for(auto& BS : D->getDefinition()->bases()) { if(BS.getType()->getAsCXXRecordDecl()->getCanonicalDecl() == B->getCanonicalDecl()) { found = true; break; } bi++; }
             if(!found) die("base path");
-            if(B->isEmpty()) die("conversion to empty base");
-            cur = cur + "." + baseField(bi);
+            // an empty base has no storage of its own: view the (sub)object's first byte as the empty struct
+            if(B->isEmpty()) { needRecord(B); cur = "(*(struct " + recName(B->getDefinition() ? B->getDefinition() : B) + " *)&(" + cur + "))"; }
+            else cur = cur + "." + baseField(bi);
             D = B;
         }
         return cur;
@@ -415,7 +416,18 @@ struct Lower
             auto* RD = IL->getType()->getAsRecordDecl();
             std::string s = "(" + target + " = (" + ctype(IL->getType()) + "){0}";
             unsigned i = 0;
-            if(auto* CR = dyn_cast<CXXRecordDecl>(RD)) if(CR->getNumBases()) die("aggregate with bases", I, &C);
+            if(auto* CR = dyn_cast<CXXRecordDecl>(RD))
+            {
+                unsigned bi = 0;
+                for(auto& B : CR->bases())
+                {
+                    if(i >= IL->getNumInits()) break;
+                    auto* BD = B.getType()->getAsCXXRecordDecl();
+                    if(BD->isEmpty()) { const Expr* BI = IL->getInit(i)->IgnoreImplicit(); if(!isa<InitListExpr>(BI) && !isa<ImplicitValueInitExpr>(BI) && !isa<CXXConstructExpr>(BI)) die("initializer of an empty base with possible side effects", I, &C); }
+                    else s += ", " + initInto(IL->getInit(i), target + "." + baseField(bi));
+                    i++; bi++;
+                }
+            }
             for(auto* F : RD->fields()) { if(i >= IL->getNumInits()) break; s += ", " + initInto(IL->getInit(i), target + "." + fieldName(F)); i++; }
             return s + ")";
         }
